@@ -183,3 +183,7 @@ func (v *VerifRM) PendingIDs() []string {
 // Lock/Unlock expose the pipeline lock for quiescent-point inspection in concurrent runs.
 func (v *VerifRM) Lock()   { v.m.Lock() }
 func (v *VerifRM) Unlock() { v.m.Unlock() }
+
+// TryLock reports whether the pipeline lock was free (and takes it if so): used by the push hook to check that
+// unsolicited updates are sent from inside the critical section of the request that produced them.
+func (v *VerifRM) TryLock() bool { return v.m.TryLock() }
